@@ -116,3 +116,106 @@ pub fn clocks_line(ln: &Value, rep: &mut Report, known: &Known) {
         rep.samples.push(json!({"c": ln["c"], "d": ln["d"], "cmp": ln["cmp"], "join": ln["join"], "forget": ln["forget"]}));
     }
 }
+
+// ---------------------------------------------------------------------------
+// identifiers
+// ---------------------------------------------------------------------------
+use crdts::Identifier;
+use num::{BigInt, BigRational};
+
+pub fn rat_of(v: &Value) -> BigRational {
+    BigRational::new(BigInt::from(v[0].as_i64().unwrap()), BigInt::from(v[1].as_i64().unwrap()))
+}
+
+/// build an identifier with an arbitrary path through its Deserialize impl
+/// (the only public constructor makes one-node identifiers)
+pub fn ident_of<T: serde::Serialize + serde::de::DeserializeOwned>(path: &Value, marker: &dyn Fn(&Value) -> T) -> Identifier<T> {
+    let nodes: Vec<(BigRational, T)> = path.as_array().unwrap().iter().map(|n| (rat_of(&n[0]), marker(&n[1]))).collect();
+    let txt = serde_json::to_string(&nodes).unwrap();
+    serde_json::from_str(&txt).expect("identifier from path")
+}
+
+fn bigint_of_tree(t: &crate::tree::Tree) -> i64 {
+    // BigInt serialises as (sign, [u32 digits little endian])
+    let s = t.seq();
+    let sign = s[0].i();
+    let mut mag: i128 = 0;
+    for (i, d) in s[1].seq().iter().enumerate() {
+        mag += (d.u() as i128) << (32 * i);
+    }
+    (sign as i128 * mag) as i64
+}
+
+/// identifier -> [[[num, den], marker-json], ...]
+pub fn ident_json(t: &crate::tree::Tree, marker: &dyn Fn(&crate::tree::Tree) -> Value) -> Value {
+    let nodes: Vec<Value> = t
+        .seq()
+        .iter()
+        .map(|n| {
+            let n = n.seq();
+            let r = n[0].seq();
+            json!([[bigint_of_tree(&r[0]), bigint_of_tree(&r[1])], marker(&n[1])])
+        })
+        .collect();
+    json!(nodes)
+}
+
+pub fn ident_line(ln: &Value, rep: &mut Report, _known: &Known) {
+    rep.lines += 1;
+    let mk = |v: &Value| v.as_u64().unwrap() as u8;
+    let mj = |t: &crate::tree::Tree| json!(t.u());
+    let lo: Identifier<u8> = ident_of(&ln["lo"], &mk);
+    let hi: Identifier<u8> = ident_of(&ln["hi"], &mk);
+    let m = ln["m"].as_u64().unwrap() as u8;
+    let h = json!({"lo": ln["lo"], "hi": ln["hi"], "m": m});
+    let mut chk = |rep: &mut Report, props: &[&str], obs: &str, real: Value, exp: Value| {
+        rep.eval(props);
+        if real != exp {
+            rep.add("violation", props, "ident", obs, real, exp, Value::Null, &h, Value::Null);
+        }
+    };
+    let c = match lo.cmp(&hi) {
+        Ordering::Less => -1,
+        Ordering::Equal => 0,
+        Ordering::Greater => 1,
+    };
+    chk(rep, &["C14"], "cmp", json!(c), ln["cmp"].clone());
+    chk(rep, &["C14"], "eq", json!(lo == hi), json!(ln["cmp"] == 0));
+    chk(rep, &["C14"], "partial_cmp", json!(lo.partial_cmp(&hi) == Some(lo.cmp(&hi))), json!(true));
+    let b = crate::core::catch(|| Identifier::between(Some(&lo), Some(&hi), m));
+    match b {
+        Ok(b) => {
+            chk(rep, &["C14", "C13"], "between", ident_json(&to_tree(&b), &mj), ln["btw"].clone());
+            // the property itself, evaluated with the real order
+            if c != 0 {
+                let (l, g) = if c < 0 { (&lo, &hi) } else { (&hi, &lo) };
+                chk(rep, &["C14", "C13"], "between.strictly_inside", json!(l < &b && &b < g), json!(true));
+            }
+        }
+        Err(e) => chk(rep, &["C14"], "between.panic", json!(e), json!("no panic")),
+    }
+    let a = Identifier::between(Some(&lo), None, m);
+    chk(rep, &["C14", "C13"], "between.after", ident_json(&to_tree(&a), &mj), ln["after"].clone());
+    chk(rep, &["C14", "C13"], "between.after.beyond", json!(lo < a), json!(true));
+    let bf = Identifier::between(None, Some(&hi), m);
+    chk(rep, &["C14", "C13"], "between.before", ident_json(&to_tree(&bf), &mj), ln["before"].clone());
+    chk(rep, &["C14", "C13"], "between.before.beyond", json!(bf < hi), json!(true));
+    let nn: Identifier<u8> = Identifier::between(None, None, m);
+    chk(rep, &["C14"], "between.none", ident_json(&to_tree(&nn), &mj), ln["none"].clone());
+    // value() is the marker of the last node
+    chk(rep, &["C14"], "value", json!(*a.value()), json!(m));
+    let lo_len = ln["lo"].as_array().unwrap().len();
+    let hi_len = ln["hi"].as_array().unwrap().len();
+    if lo_len != hi_len {
+        rep.nontriv("different_depth");
+    }
+    if ln["lo"][0][0] == ln["hi"][0][0] && ln["lo"][0][1] != ln["hi"][0][1] {
+        rep.nontriv("equal_rational_siblings");
+    }
+    if lo_len != hi_len && ln["lo"][0] == ln["hi"][0] {
+        rep.nontriv("prefix_related");
+    }
+    if rep.samples.len() < 3 && lo_len != hi_len && ln["lo"][0] == ln["hi"][0] && rep.lines % 101 == 7 {
+        rep.samples.push(json!({"lo": ln["lo"], "hi": ln["hi"], "m": m, "cmp": ln["cmp"], "between": ln["btw"]}));
+    }
+}
